@@ -12,6 +12,8 @@ pub mod gen_catalogue;
 pub mod gen_catalogue;
 pub mod gen_core;
 pub mod gen_fx;
+/// placeholder in the committed tree; overwritten (in a scratch copy of the harness) with generated declarations
+pub mod gen_dyn;
 
 pub mod amount_type {
     use crate::num::enc;
@@ -60,6 +62,12 @@ pub fn registry(which: &str) -> Registry {
             r.binops = gen_fx::fx_binops();
             r.rates = gen_fx::fx_rates();
             r.tables = gen_fx::fx_tables();
+        }
+        "gen" => {
+            r.types.extend(gen_dyn::gen_types());
+            r.binops = gen_dyn::gen_binops();
+            r.rates = gen_dyn::gen_rates();
+            r.tables = gen_dyn::gen_tables();
         }
         _ => panic!("unknown registry {}", which),
     }
